@@ -69,6 +69,12 @@ inline void simFPuts(const char* s, PlatformSpecificFile file) {
     }
     io.badHandle++;
 }
+inline void simFWrite(const char* data, size_t n, PlatformSpecificFile file) {      // the same for a counted write
+    SimIO& io = simIO();
+    if (file == (PlatformSpecificFile)&simStdoutTag) { io.console.append(data, n); if (io.errnoNoise) errno = io.errnoNoise; return; }
+    for (size_t i = 0; i < io.files.size(); i++) if ((PlatformSpecificFile)io.files[i] == file) { if (!io.files[i]->open) io.writesAfterClose++; io.files[i]->data.append(data, n); return; }
+    io.badHandle++;
+}
 inline void simFClose(PlatformSpecificFile file) {
     SimIO& io = simIO();
     for (size_t i = 0; i < io.files.size(); i++) if ((PlatformSpecificFile)io.files[i] == file) { io.files[i]->open = false; io.files[i]->closes++; return; }
